@@ -15,7 +15,6 @@
  * The byte-swap loop over the location list carries a loop contract.
  */
 #define C14_SITE "xattr_flush"
-#define C14_DFCC
 #include <stdlib.h>
 #include "C14/c14_env.h"
 #include "lib/sqfs/src/xattr/xattr_writer.h"
